@@ -30,6 +30,13 @@ RECURSIVE SortedSeq(_)
 SortedSeq(S) == IF S = {} THEN <<>>
                 ELSE LET m == SetMin(S) IN <<m>> \o SortedSeq(S \ {m})
 
+(* a set of equal-length integer vectors as a sequence (lexicographic order)   *)
+VLess(u, v) == \E k \in 1..Len(u) : (\A m \in 1..(k - 1) : u[m] = v[m]) /\ u[k] < v[k]
+RECURSIVE SortedVecs(_)
+SortedVecs(S) == IF S = {} THEN <<>>
+                 ELSE LET m == CHOOSE x \in S : \A y \in S : x = y \/ VLess(x, y)
+                      IN <<m>> \o SortedVecs(S \ {m})
+
 Vec(n, x) == [i \in 1..n |-> x]
 VAdd(u, v) == [i \in 1..Len(u) |-> u[i] + v[i]]
 VSub(u, v) == [i \in 1..Len(u) |-> u[i] - v[i]]
